@@ -1,9 +1,16 @@
 #!/bin/sh
-# usage: try_mutant.sh <ID> <k> : copies /tmp/mut_<ID>_<k>_out to seeded/<ID>_<k>, applies the patch to /repo,
-# runs bin/check <ID>, reverts /repo, leaves the check output in seeded/<ID>_<k>/check_output.txt
-ID=$1; K=$2; D=/verif/seeded/${ID}_${K}
-if [ -d /tmp/mut_${ID}_${K}_out ]; then mkdir -p $D; cp -r /tmp/mut_${ID}_${K}_out/. $D/; rm -rf $D/*.log $D/logs $D/test_logs; fi
-cd /repo && git apply $D/patch.diff || { echo "patch does not apply"; exit 2; }
-cd /verif && bin/check $ID > $D/check_output.txt 2>&1; echo "rc=$?" >> $D/check_output.txt
-git -C /repo checkout -- . 
+# usage: try_mutant.sh <ID> <k> : copies /tmp/mut_<ID>_<k>_out to seeded/<ID>_<k>, applies the patch in a scratch
+# worktree of /repo (so that checks other people run against /repo are not disturbed), runs
+# VERIF_REPO=<worktree> bin/check <ID>, leaves the output in seeded/<ID>_<k>/check_output.txt, removes the worktree.
+ID=$1; K=$2; D=/verif/seeded/${ID}_${K}; W=/tmp/try_${ID}_${K}
+if [ -d /tmp/mut_${ID}_${K}_out ]; then mkdir -p $D; cp -r /tmp/mut_${ID}_${K}_out/. $D/; rm -rf $D/*.log $D/logs $D/test_logs $D/testlogs* $D/orig; fi
+git -C /repo worktree add --detach $W >/dev/null 2>&1 || { echo "cannot create worktree"; exit 2; }
+( cd $W && git apply $D/patch.diff ) || { echo "patch does not apply"; git -C /repo worktree remove --force $W; exit 2; }
+cd /verif && VERIF_REPO=$W bin/check $ID > $D/check_output.txt 2>&1; echo "rc=$?" >> $D/check_output.txt
+git -C /repo worktree remove --force $W
+python3 - <<P
+import hashlib,os,shutil
+d=os.path.join('/verif/.build/alt', hashlib.sha1(os.path.realpath('$W').encode()).hexdigest()[:10])
+shutil.rmtree(d, ignore_errors=True)
+P
 tail -6 $D/check_output.txt
